@@ -22,6 +22,12 @@ type EncodeOpts struct {
 	// KeyOnlyEntries: some entries of message-valued maps are preceded by an
 	// entry that carries the key but no value field.
 	KeyOnlyEntries bool
+	// Redundant: non-canonical but well-typed records that do not change the
+	// decoded value: explicit records carrying the default value for
+	// unpopulated singular scalar fields (e.g. a zero-length bytes field), and
+	// an earlier record with the default value in front of a populated singular
+	// scalar (the last one wins).
+	Redundant bool
 }
 
 // SplitRecords cuts a well-formed wire stream into its records.
@@ -189,11 +195,42 @@ func (o *EncodeOpts) Encode(m protoreflect.Message) []byte {
 			}
 		default:
 			var r []byte
+			if o.T != nil && o.Redundant && fd.Kind() != protoreflect.MessageKind && fd.ContainingOneof() == nil && o.T.Chance("redundant-first", 1, 4) {
+				var d []byte
+				d = protowire.AppendTag(d, fd.Number(), wireType(fd.Kind()))
+				d = o.appendScalar(d, fd, fd.Default())
+				recs = append(recs, d)
+			}
 			r = protowire.AppendTag(r, fd.Number(), wireType(fd.Kind()))
 			r = o.appendScalar(r, fd, v)
 			recs = append(recs, r)
 		}
 		groups = append(groups, recs)
+	}
+	if o.T != nil && o.Redundant {
+		// explicit default-valued records for some unpopulated singular scalars
+		n := 0
+		for _, fd := range sortedFields(m.Descriptor()) {
+			if n >= 4 {
+				break
+			}
+			if m.Has(fd) || fd.IsList() || fd.IsMap() || fd.Kind() == protoreflect.MessageKind || fd.ContainingOneof() != nil {
+				continue
+			}
+			if !o.T.Chance("explicit-default", 1, 8) {
+				continue
+			}
+			var r []byte
+			r = protowire.AppendTag(r, fd.Number(), wireType(fd.Kind()))
+			r = o.appendScalar(r, fd, fd.Default())
+			if o.T.Chance("explicit-default-twice", 1, 3) {
+				// the same field again right away (e.g. two zero-length bytes records)
+				r = protowire.AppendTag(r, fd.Number(), wireType(fd.Kind()))
+				r = o.appendScalar(r, fd, fd.Default())
+			}
+			groups = append(groups, [][]byte{r})
+			n++
+		}
 	}
 	// unknown records keep their relative order
 	var unk [][]byte
